@@ -60,5 +60,11 @@ static inline int64_t replay_get(const char *name, int idx) {
 #endif
 #endif
 
+/* prophecy-ghost assumption inserted by listed slicer rewrites (see contracts/ans.c); nothing natively */
+#ifdef VERIF_CBMC
+#define PROPHECY(c) __CPROVER_assume(c)
+#else
+#define PROPHECY(c) ((void)0)
+#endif
 #define U8MAX 255u
 #endif
